@@ -118,7 +118,9 @@ def run_case(case, ctx):
     st, inc = ctx.call(d.inc, *a1, **k1)
     ctx.check('operands_unchanged', all((not isinstance(a, dict)) or (list(a.keys()) == list(b.keys()) and all(a[k] is b[k] or a[k] == b[k] or (a[k] != a[k]) for k in a)) for a, b in zip(a1, keep1)), lambda: 'inc edited the filter dict it was given: %r' % (a1,))
     a2, k2 = fresh_args()
+    keep2 = [dict(a) if isinstance(a, dict) else a for a in a2]
     st2, exc = ctx.call(d.exc, *a2, **k2)
+    ctx.check('operands_unchanged', all((not isinstance(a, dict)) or (list(a.keys()) == list(b.keys()) and all(a[k] is b[k] or a[k] == b[k] or (a[k] != a[k]) for k in a)) for a, b in zip(a2, keep2)), lambda: 'exc edited the filter dict it was given: %r -> %r' % (keep2, a2))
     if st != 'ok' or st2 != 'ok':
         ctx.ev('inc_rows_model')
         ctx.fail('inc_rows_model', 'inc/exc raised: %s / %s' % (inc if st != 'ok' else 'ok', exc if st2 != 'ok' else 'ok'))
